@@ -105,6 +105,7 @@ pub struct Gen {
     arch_sinks: Vec<(usize, usize)>, // (region, integer signal) sinks for concurrent code
     pub site_stats: Vec<String>,
     split: bool,
+    alt: Option<(String, String)>,
     nested_types: Vec<(usize, [usize; 4])>, // per region: word array, matrix, record with unconstrained element, its element
 }
 
@@ -130,7 +131,7 @@ const INT_SITES_DECL: &[&str] = &[
 
 impl Gen {
     fn new(seed: u64, gid: usize) -> Gen {
-        Gen { rng: Rng::new(seed), gid, ents: vec![], regions: vec![], targets: vec![], arch_sinks: vec![], site_stats: vec![], split: false, nested_types: vec![] }
+        Gen { rng: Rng::new(seed), gid, ents: vec![], regions: vec![], targets: vec![], arch_sinks: vec![], site_stats: vec![], split: false, alt: None, nested_types: vec![] }
     }
     fn ent(&mut self, prefix: &str, kind: &'static str, parent: Option<usize>, declby: Option<usize>, elig: bool) -> usize {
         let id = self.ents.len();
@@ -1140,12 +1141,15 @@ pub fn gen_project(seed: u64, pi: usize, gpp: usize) -> Value {
         let lib = if rng.chance(1, 4) { "tp" } else { "lib" };
         let is_entity = rng.chance(3, 5);
         let split = rng.chance(1, 3);
-        let (files, stats) = gen_group(gseed, gid, is_entity, split);
+        let (files, stats, alt) = gen_group(gseed, gid, is_entity, split);
         let edit = if rng.chance(1, 6) {
             let mut e = gen_group(rng.next(), gid, is_entity, split).0;
             // sometimes the file of the secondary unit is emptied instead (shape of finding F3)
             let deferred = files[0][1].as_str().map(|t| t.contains("@dk")).unwrap_or(false);
-            if split && !deferred && rng.chance(1, 2) {
+            if let (Some(a), true) = (&alt, rng.chance(2, 3)) {
+                // only one of several architectures changes: it no longer references anything of the entity
+                e = vec![a.clone()];
+            } else if split && !deferred && rng.chance(1, 2) {
                 let name = files[1][0].clone();
                 e = vec![json!([name, ""])];
             }
@@ -1162,7 +1166,7 @@ pub fn gen_project(seed: u64, pi: usize, gpp: usize) -> Value {
             let rename = |fs: Vec<Value>| -> Vec<Value> {
                 fs.into_iter().map(|f| json!([format!("tw{}", &f[0].as_str().unwrap()[1..]), f[1]])).collect()
             };
-            let (tfiles, _) = gen_group(rng.next(), gid, is_entity, split);
+            let (tfiles, _, _) = gen_group(rng.next(), gid, is_entity, split);
             let edit_original = rng.chance(1, 2);
             let mut tedit = None;
             if edit_original {
@@ -1175,7 +1179,16 @@ pub fn gen_project(seed: u64, pi: usize, gpp: usize) -> Value {
             }
             twin_group = Some(json!({"gid": gid, "lib": "lib2", "twin": true, "files": rename(tfiles), "edit": tedit, "sites": []}));
         }
+        let with_cfg = is_entity && edit.is_none() && rng.chance(1, 5);
         groups.push(json!({"gid": gid, "lib": lib, "seed": gseed.to_string(), "files": files, "edit": edit, "sites": stats}));
+        if with_cfg {
+            let cg = gid + 500;
+            let txt = format!(
+                "configuration @D0:design:-:-:0@cfg_g{} of e_g{} is\n  for a_g{}\n  end for;\nend configuration;\n",
+                gid, gid, gid
+            );
+            groups.push(json!({"gid": cg, "lib": lib, "files": [[format!("g{}_cfg.vhd", gid), txt]], "edit": null, "sites": []}));
+        }
         if let Some(t) = twin_group {
             groups.push(t);
         }
